@@ -1041,7 +1041,12 @@ func (fx *FX) constArray(k, v Sort, val string) string {
 		return c
 	}
 	c := fx.ctx.Fresh("constarr", ArrS(k, v))
-	fx.ctx.Assert(fmt.Sprintf("(forall ((i %s)) (! (= (select %s i) %s) :pattern ((select %s i))))", k, c, val, c))
+	if val == "false" || val == "true" || val == "0" {
+		// literal default: a theory constant array (accepted by z3 and cvc5), so select-over-store chains reduce by the array theory
+		fx.ctx.Assert(fmt.Sprintf("(= %s ((as const %s) %s))", c, ArrS(k, v), val))
+	} else {
+		fx.ctx.Assert(fmt.Sprintf("(forall ((i %s)) (! (= (select %s i) %s) :pattern ((select %s i))))", k, c, val, c))
+	}
 	if fx.constArrs == nil {
 		fx.constArrs = map[string]string{}
 	}
